@@ -72,6 +72,16 @@ pub fn tool_main(args: &[String]) -> i32 {
             println!("{} of {} accepted", ok, n);
             0
         }
+        "decode-tape" => {
+            // print the program a tape decodes to under a profile: decode-tape <profile> <hex>
+            let prof = profile_by_name(args.get(1).map(|s| s.as_str()).unwrap_or("full"));
+            let bytes = crate::tape::unhex(args.get(2).map(|s| s.as_str()).unwrap_or("")).unwrap_or_default();
+            let mut t = Tape::new(&bytes);
+            let g = generate(&mut t, &prof);
+            print!("{}", crate::render::pretty(&g.prog));
+            println!("// fault={:?} fragment-check={}", g.fault, crate::fragment::check(&g.prog));
+            0
+        }
         "c13-count" => {
             println!("{}", crate::props::c13::count_space(std::env::var("LIM").ok().and_then(|s| s.parse().ok()).unwrap_or(1_000_000)));
             0
